@@ -447,12 +447,11 @@ class Engine:
         for link in links:
             s_lvl, s_root = fold_position([m for _, m in link.sent], name)
             order = ev['order']
-            # keep the scripted peer protocol-legal (level 0 <=> root is the sender)
+            # keep the scripted peer protocol-legal (level 0 <=> root is the sender; level 0 may be sent alone, the
+            # library documents that it then takes the sender as root)
             if level == 0:
                 if order == 'r' and s_lvl not in (None, 0):
                     order = 'rl'
-                if order == 'l' and s_root not in (None, name):
-                    order = 'lr'
             else:
                 if order == 'l' and s_root == name:
                     order = 'lr'
@@ -773,8 +772,10 @@ def gen_c13_events(rng: random.Random, n_peers: int, length: int) -> list:
 
     def ann(peer):
         level = rng.choice([0, 1, 1, 2, 3, 5])
+        # a peer that is itself the root usually sends level 0 alone (as aioslsk itself does)
+        weights = [20, 10, 60, 10] if level == 0 else [40, 30, 15, 15]
         return {'e': 'ann', 'peer': peer, 'level': level, 'root': rng.choice(ROOTS),
-                'order': rng.choices(['lr', 'rl', 'l', 'r'], [40, 30, 15, 15])[0]}
+                'order': rng.choices(['lr', 'rl', 'l', 'r'], weights)[0]}
 
     def total():
         return sum(1 + len(e.get('during') or []) for e in evs)
@@ -883,6 +884,11 @@ C13_DIRECTED = [
     [{'e': 'cfail', 'peer': 'p1', 'how': 'hang'}, {'e': 'pp', 'peers': ['p1', 'p2']}, _A('p2', 1)],
     [{'e': 'pp', 'peers': ['p1']}, _A('p1', 1), {'e': 'pp', 'peers': ['p2']}, _A('p2', 1, root='rootB')],
     [{'e': 'pp', 'peers': ['p1']}, _A('p1', 1), {'e': 'in', 'peer': 'p2'}, _A('p2', 3, root='rootB')],
+    # the parent becomes the root itself: level 0 alone after an explicit root
+    [{'e': 'pp', 'peers': ['p1']}, _A('p1', 2), _A('p1', 0, order='l')],
+    [{'e': 'pp', 'peers': ['p1']}, _A('p1', 1, root='rootB', order='rl'), _A('p1', 0, order='l'), {'e': 'in', 'peer': 'p2'}],
+    [{'e': 'in', 'peer': 'p2'}, {'e': 'pp', 'peers': ['p1']}, _A('p1', 3), _A('p1', 0, order='l'), _A('p1', 2, order='l')],
+    [{'e': 'pp', 'peers': ['p1']}, _A('p1', 0, order='l'), _A('p1', 2, root='rootB'), _A('p1', 0, order='l')],
 ]
 
 
